@@ -1,6 +1,6 @@
 (* C05 - executable graph invariant, event alphabet, path enumeration and the per-path check used by
    the bounded exhaustive exploration inside Coq.  Definitions only. *)
-From GV Require Import Base.Prelude Incr.Protocol Incr.WorkQueue Incr.Publisher.
+From GV Require Import Base.Prelude Incr.Protocol Incr.WorkQueue Incr.Publisher Incr.NodeProtocol.
 
 Fixpoint nodupb (l : list N) : bool :=
   match l with [] => true | x :: r => negb (memN x r) && nodupb r end.
@@ -177,7 +177,9 @@ Definition check_path (E : env) (w : work) (evs : list gevent) : bool :=
   && last_step_ok E s0 evs
   && valid_prefix (e_parent E) ps
   && (if stopped s1 then valid (e_parent E) ps else true)
-  && creation_ok E (concat outs).
+  && creation_ok E (concat outs)
+  (* the event trace is well formed at node level (hypothesis of the general publisher theorem) *)
+  && wq_wf E ig is_ outs && Bool.eqb (wq_wf_closed E ig is_ outs) (stopped s1).
 
 Definition explore (n : nat) (g : env * work) : bool :=
   let '(E, w) := g in
